@@ -76,6 +76,10 @@ def run(pid, tier):
         if variant != "plain" and d + 12 < 34:
             variant = "plain"
         cases.append(make_case(f"r{i}", d + 12, image, rnd.randint(0, image), ndev, variant, rnd))
+        if rnd.random() < 0.15:
+            # a network that answers every process data datagram with inverted bytes: the inputs are what came back,
+            # the outputs stay what the application wrote
+            cases[-1]["hostile_lrw"] = True
     trace = sc.run_cases("pdi", cases, binary="vsim2")
     tconst = dict(Caps="{}", MaxImage=0, MaxDevs=0, Variants="{}")
 
